@@ -112,6 +112,47 @@ fn arbitrary(text: &[u8], space: &str, rep: &mut Report, max_us: &mut u128) {
     }
 }
 
+/// Does the line containing `off` return to the column at which a compact collection entry
+/// (`- x` inside `- - x` / `- k: v`) started on the nearest earlier less-indented line?
+fn dedent_to_compact_level(text: &[u8], off: usize) -> bool {
+    let is_brk = |b: u8| b == b'\n' || b == b'\r';
+    let ls = text[..off.min(text.len())].iter().rposition(|&b| is_brk(b)).map_or(0, |i| i + 1);
+    let d = text[ls..].iter().take_while(|&&b| b == b' ').count();
+    // walk back over earlier lines
+    let mut end = ls;
+    while end > 0 {
+        // strip the break(s) before `end`
+        let mut e = end;
+        while e > 0 && is_brk(text[e - 1]) {
+            e -= 1;
+        }
+        let s = text[..e].iter().rposition(|&b| is_brk(b)).map_or(0, |i| i + 1);
+        let line = &text[s..e];
+        let ind = line.iter().take_while(|&&b| b == b' ').count();
+        if ind < line.len() && line[ind] != b'#' {
+            if ind == d {
+                return false; // the level was established by a line of its own
+            }
+            if ind < d {
+                // columns at which compact entries start on this line
+                let mut col = ind;
+                while col + 1 < line.len() && line[col] == b'-' && line[col + 1] == b' ' {
+                    col += 1;
+                    while col < line.len() && line[col] == b' ' {
+                        col += 1;
+                    }
+                    if col == d {
+                        return true;
+                    }
+                }
+                return false;
+            }
+        }
+        end = s;
+    }
+    false
+}
+
 fn wellformed(text: &[u8], marks: &[ygen::Mark], brk: ygen::Brk, wrap: ygen::Wrap, space: &str, rep: &mut Report) {
     rep.trans(1);
     let (r, _) = timed_validate(text);
@@ -136,7 +177,13 @@ fn wellformed(text: &[u8], marks: &[ygen::Mark], brk: ygen::Brk, wrap: ygen::Wra
                 },
             };
             let _ = wrap;
-            let sig = format!("validate:false-reject:{}:{at}:{}", kind_name(&e), brk.name());
+            let sig = if kind_name(&e) == "BadIndentation" && dedent_to_compact_level(text, off) {
+                // narrow class: the rejected line returns to the column of a compact collection (`- k:` / `- -`)
+                // opened on an earlier line, with only deeper lines in between
+                "validate:false-reject:BadIndentation:dedent-to-compact-collection-level".to_string()
+            } else {
+                format!("validate:false-reject:{}:{at}:{}", kind_name(&e), brk.name())
+            };
             rep.fail(&sig, text.len(), || {
                 let mut c = case();
                 c["signature_hint"] = json!(sig);
